@@ -31,6 +31,40 @@ type box struct {
 }
 `
 
+const headerAtomic = `package p
+
+import (
+	"sync"
+	"sync/atomic"
+)
+
+type tree struct{ vals []int }
+
+func (t *tree) Find(k int) bool { return len(t.vals) > k }
+func (t *tree) Add(k int)       { t.vals = append(t.vals, k) }
+func (t *tree) Clone() *tree    { out := &tree{}; out.vals = append([]int(nil), t.vals...); return out }
+
+type box struct {
+	known []int
+	mu    sync.Mutex
+	index atomic.Pointer[tree]
+	cache sync.Map
+}
+`
+
+func runWith(t *testing.T, hdr, body string) string {
+	t.Helper()
+
+	saved := headerText
+	headerText = hdr
+
+	defer func() { headerText = saved }()
+
+	return run(t, body)
+}
+
+var headerText = header
+
 func run(t *testing.T, body string) string {
 	t.Helper()
 
@@ -39,7 +73,7 @@ func run(t *testing.T, body string) string {
 		t.Fatal(err)
 	}
 
-	if err := os.WriteFile(filepath.Join(dir, "p", "box.go"), []byte(header+body), 0o644); err != nil {
+	if err := os.WriteFile(filepath.Join(dir, "p", "box.go"), []byte(headerText+body), 0o644); err != nil {
 		t.Fatal(err)
 	}
 
@@ -168,6 +202,61 @@ func (b *box) M(k int) { b.mu.Lock(); defer b.mu.Unlock(); tmp := b.index.Clone(
 			if strings.Contains(out, w) {
 				t.Errorf("%s: unexpected %q in\n%s", c.name, w, out)
 			}
+		}
+	}
+}
+
+// the holes the audit found: method calls on plain guarded fields must not become reads
+func TestAuditHoles(t *testing.T) {
+	// (a) atomic.Pointer index: Load / Store are the loads / stores of the pointer field
+	out := runWith(t, headerAtomic, `
+func (b *box) Get(k int) bool { return b.index.Load().Find(k) }
+
+func (b *box) Put(k int) {
+	b.mu.Lock()
+	defer b.mu.Unlock()
+	tmp := b.index.Load().Clone()
+	tmp.Add(k)
+	b.known = append(b.known, k)
+	b.index.Store(tmp)
+}
+`)
+	for _, want := range []string{"SEv (ELoad 0 1)", "SEv (EObjRead 0)", "SEv (EClone 1 0)", "SEv (EObjWrite 1)", "SEv (EStore 1 1)", "SEv (ELock 1)", "SEv (ERLock 1)"} {
+		if !strings.Contains(out, want) {
+			t.Errorf("atomic pointer: missing %q in\n%s", want, out)
+		}
+	}
+
+	if strings.Contains(out, "EUnsupported") {
+		t.Errorf("atomic pointer pattern must translate completely:\n%s", out)
+	}
+
+	// (b) clone taken before the writer lock: the load must show up BEFORE the acquisition of lock 0
+	out = runWith(t, headerAtomic, `
+func (b *box) Put(k int) {
+	tmp := b.index.Load().Clone()
+	tmp.Add(k)
+	b.mu.Lock()
+	defer b.mu.Unlock()
+	b.index.Store(tmp)
+}
+`)
+	if i, j := strings.Index(out, "ELoad"), strings.Index(out, "SEv (ELock 0)"); i < 0 || j < 0 || i > j {
+		t.Errorf("atomic pointer, clone before lock: load must precede the writer lock in\n%s", out)
+	}
+
+	// (c) sync.Map cache, Clear(), Swap: unknown effect on a guarded field
+	for name, body := range map[string]string{
+		"cache load":  `func (b *box) Get(k int) bool { _, ok := b.cache.Load(k); return ok }`,
+		"cache store": `func (b *box) Put(k int) { b.cache.Store(k, k) }`,
+		"cache clear": `func (b *box) Put(k int) { b.mu.Lock(); b.cache.Clear(); b.mu.Unlock() }`,
+		"swap":        `func (b *box) Put(t *tree) { b.index.Swap(t) }`,
+		"atomic copy": `func (b *box) Put() { x := b.index; _ = x }`,
+		"store fresh": `func (b *box) Put() { b.index.Store(&tree{}) }`,
+	} {
+		out := runWith(t, headerAtomic, body)
+		if !strings.Contains(out, "EUnsupported") {
+			t.Errorf("%s: expected EUnsupported in\n%s", name, out)
 		}
 	}
 }
